@@ -73,4 +73,16 @@ def translate (g : Geom) (a : Nat) : Nat × Nat × Nat × Nat :=
   let rca := rcaOf g a
   (rankOf g ba, dfiBank g ba, rowOf g rca, colOf g rca)
 
+/-! ### `address_align` as `LiteDRAMController.__init__` derives it (core/controller.py) -/
+/-- memory types in the order the drivers use: 0 SDR, 1 DDR, 2 LPDDR, 3 DDR2, 4 DDR3, 5 DDR4, 6 LPDDR4, 7 LPDDR5 -/
+def burstLengthCode (memtype nphases : Nat) : Nat :=
+  match memtype with
+  | 0 => nphases        -- SDR: the burst length is the number of DFI phases (init.py programs BL = nphases)
+  | 1 | 2 | 3 => 4
+  | 4 | 5 => 8
+  | _ => 16
+
+/-- `address_align = log2_int(burst_length)` -/
+def alignOf (memtype nphases : Nat) : Nat := Nat.log2 (burstLengthCode memtype nphases)
+
 end AddrMap
